@@ -9,9 +9,9 @@ use crate::out::Out;
 use crate::suite_engine::{Case, Cfg, emit_info};
 use crate::refarith::eval_ref;
 
-struct Ctx { nvars: usize, prior: Vec<Goal> }
+struct Ctx { nvars: usize, prior: Vec<Goal>, no_tails: bool }
 impl Ctx {
-    fn new() -> Ctx { Ctx{nvars: 0, prior: vec![]} }
+    fn new() -> Ctx { Ctx{nvars: 0, prior: vec![], no_tails: false} }
     fn fresh(&mut self) -> Unifiable { self.nvars += 1; logic_var!(format!("$V{}", self.nvars)) }
     /// the value written literally, or reached through a chain of 1-3 bound variables
     fn operand(&mut self, r: &mut Rng, value: Unifiable) -> Unifiable {
@@ -234,7 +234,7 @@ fn gen_list_arg_of(ctx: &mut Ctx, r: &mut Rng, elems: Vec<Unifiable>) -> (Unifia
     let logical = elems.clone();
     let elems = written_elems;
     let _ = &logical;
-    if n >= 2 && r.chance(1, 3) {
+    if n >= 2 && !ctx.no_tails && r.chance(1, 3) {
         let k = 1 + r.below(n - 1);
         let t = ctx.fresh();
         let back = proper_list(elems[k..].to_vec(), None);
@@ -251,10 +251,10 @@ fn gen_list_arg_of(ctx: &mut Ctx, r: &mut Rng, elems: Vec<Unifiable>) -> (Unifia
 
 fn enc_list(elems: &[Unifiable]) -> String { term_str(&proper_list(elems.to_vec(), None)) }
 
-pub fn run_append_random(out: &mut Out, cfg: &Cfg, seed: u64, n: usize) {
+pub fn run_append_random(out: &mut Out, cfg: &Cfg, seed: u64, n: usize, no_tails: bool) {
     let mut r = Rng::new(seed);
     for _ in 0..n {
-        let mut ctx = Ctx::new();
+        let mut ctx = Ctx::new(); ctx.no_tails = no_tails;
         let res = ctx.fresh();
         let k = 1 + r.below(4);
         let mut args = vec![]; let mut expected: Vec<Unifiable> = vec![];
@@ -294,12 +294,12 @@ fn join_expected(words: &[Unifiable]) -> String {
     out
 }
 
-pub fn run_c17_random(out: &mut Out, cfg: &Cfg, seed: u64, n: usize) {
+pub fn run_c17_random(out: &mut Out, cfg: &Cfg, seed: u64, n: usize, only_filter: bool, no_tails: bool) {
     let mut r = Rng::new(seed);
     for _ in 0..n {
-        let mut ctx = Ctx::new();
+        let mut ctx = Ctx::new(); ctx.no_tails = no_tails;
         let res = ctx.fresh();
-        let kind = r.below(5);
+        let kind = if only_filter { 1 + r.below(2) } else { r.below(5) };
         let (goal, check): (Goal, Box<dyn Fn(&crate::suite_engine::RunInfo) -> Result<(), String>>) = match kind {
             0 => { // count
                 let (w, es) = gen_list_arg(&mut ctx, &mut r);
